@@ -314,3 +314,120 @@ func VerifC07ModelTwin() {
 	ilw := convertIstioListenerToWrapper(ps, configNs, &networking.IstioEgressListener{Hosts: []string{"*/*"}})
 	vp.Assert(len(ilw.services) == 1, "twin")
 }
+
+// K5: DestinationRule selection. A rule that is not exported to the proxy's namespace never shapes its configuration,
+// and a rule that is exported is found: proxy namespace first, then the service's namespace, then the root namespace.
+var verifDRExportMenu = [][]string{nil, {"*"}, {"."}, {"ns1"}, {".", "ns1"}, {".", "ns3"}, {"ns3"}}
+
+type verifDRShape struct {
+	cfg      config.Config
+	exportTo []string
+}
+
+func verifDRVisible(d *verifDRShape, proxyNs string) bool {
+	if d.exportTo == nil {
+		return true // mesh default for DestinationRules is "*"
+	}
+	for _, e := range d.exportTo {
+		switch {
+		case e == "*":
+			return true
+		case e == "." && d.cfg.Namespace == proxyNs:
+			return true
+		case e == proxyNs:
+			return true
+		}
+	}
+	return false
+}
+
+func VerifC07DestinationRuleSelection() {
+	const root = "istio-system"
+	n := 1 + vp.Choice("rules", 2)
+	var rules []*verifDRShape
+	var cfgs []config.Config
+	for i := 0; i < n; i++ {
+		p := vp.Name("dr", i)
+		ns := []string{"ns1", "ns2", root, "ns3"}[vp.Choice(p+".ns", 4)]
+		ex := verifDRExportMenu[vp.Choice(p+".exportTo", len(verifDRExportMenu))]
+		c := config.Config{
+			Meta: config.Meta{GroupVersionKind: gvk.DestinationRule, Name: vp.Name("rule", i), Namespace: ns, CreationTimestamp: time.Unix(int64(2000+i), 0)},
+			Spec: &networking.DestinationRule{Host: "b.ns2.svc.cluster.local", ExportTo: ex,
+				TrafficPolicy: &networking.TrafficPolicy{Tls: &networking.ClientTLSSettings{Mode: networking.ClientTLSSettings_TLSmode(i + 1)}}},
+		}
+		rules = append(rules, &verifDRShape{cfg: c, exportTo: ex})
+		cfgs = append(cfgs, c)
+	}
+	ps := NewPushContext()
+	ps.Mesh = &meshconfig.MeshConfig{RootNamespace: root}
+	ps.initDefaultExportMaps()
+	ps.setDestinationRules(cfgs)
+	svc := &Service{Hostname: "b.ns2.svc.cluster.local", Attributes: ServiceAttributes{Name: "b", Namespace: "ns2"}}
+	proxyNs := []string{"ns1", "ns2", root, "ns3"}[vp.Choice("proxyNs", 4)]
+	got := ps.destinationRule(proxyNs, svc)
+	vp.Reach("selected")
+	// soundness: every rule that contributed is exported to the proxy's namespace
+	for _, cdr := range got {
+		for _, from := range cdr.from {
+			for _, r := range rules {
+				if r.cfg.Name == from.Name && r.cfg.Namespace == from.Namespace {
+					vp.Assert(verifDRVisible(r, proxyNs), "selected-destination-rule-is-exported-to-the-proxy-namespace")
+				}
+			}
+		}
+	}
+	// completeness and order: the first of {proxy namespace, service namespace, root namespace} holding an exported
+	// rule supplies the result
+	level := func(ns string, privateOnly bool) bool {
+		for _, r := range rules {
+			if r.cfg.Namespace == ns && verifDRVisible(r, proxyNs) {
+				if privateOnly && !(len(r.exportTo) == 1 && (r.exportTo[0] == "." || r.exportTo[0] == ns)) {
+					continue
+				}
+				return true
+			}
+		}
+		return false
+	}
+	// a proxy in the root namespace takes only the root namespace's PRIVATE rules first and otherwise prefers the
+	// service's namespace over the (global) rules of its own namespace - documented in destinationRule()
+	want := ""
+	if proxyNs == root {
+		switch {
+		case level(root, true):
+			want = root
+		case level("ns2", false):
+			want = "ns2"
+		case level(root, false):
+			want = root
+		}
+	} else {
+		for _, ns := range []string{proxyNs, "ns2", root} {
+			if level(ns, false) {
+				want = ns
+				break
+			}
+		}
+	}
+	if want == "" {
+		vp.Assert(len(got) == 0, "no-exported-rule-no-destination-rule")
+	} else {
+		vp.Assert(len(got) > 0, "exported-destination-rule-is-found")
+		for _, cdr := range got {
+			for _, from := range cdr.from {
+				vp.Assert(from.Namespace == want, "destination-rule-comes-from-the-first-namespace-in-lookup-order")
+			}
+		}
+	}
+}
+
+// config.Config.DeepCopy goes through proto.Clone (protobuf reflection); for the DestinationRules of these harnesses a
+// field-wise copy is the same thing
+func verifConfigDeepCopy(c config.Config) config.Config {
+	out := c
+	if dr, ok := c.Spec.(*networking.DestinationRule); ok {
+		out.Spec = &networking.DestinationRule{Host: dr.Host, TrafficPolicy: dr.TrafficPolicy, Subsets: append([]*networking.Subset(nil), dr.Subsets...),
+			ExportTo: append([]string(nil), dr.ExportTo...), WorkloadSelector: dr.WorkloadSelector}
+	}
+	return out
+}
